@@ -14,6 +14,8 @@ import (
 	"sort"
 	"strings"
 
+	"golang.org/x/tools/go/callgraph/cha"
+	"golang.org/x/tools/go/callgraph/vta"
 	"golang.org/x/tools/go/packages"
 	"golang.org/x/tools/go/ssa"
 	"golang.org/x/tools/go/ssa/ssautil"
@@ -33,16 +35,24 @@ type Prog struct {
 	parents  map[*ssa.Function]*ssa.MakeClosure
 	cells    map[*ssa.Alloc]*cellInfo
 	exprMemo map[ssa.Value]*Expr
+	vtaEdges map[ssa.CallInstruction][]*ssa.Function
 }
 
 // Load type-checks dir (patterns default to ./...) without test files and
 // builds SSA for it and all dependencies. Any type error is fatal: a tree that
 // does not build cannot be decided.
 func Load(dir string, patterns ...string) (*Prog, error) {
+	return LoadEnv(dir, nil, patterns...)
+}
+
+// LoadEnv is Load under additional environment settings (GOOS, GOARCH): the
+// thorough tier decides the rules for other build configurations too.
+func LoadEnv(dir string, extraEnv []string, patterns ...string) (*Prog, error) {
 	if len(patterns) == 0 {
 		patterns = []string{"./..."}
 	}
 	env := append(os.Environ(), "GOFLAGS=-mod=mod", "GOPROXY=off", "GOWORK=off")
+	env = append(env, extraEnv...)
 	cfg := &packages.Config{
 		Mode:  packages.LoadAllSyntax | packages.NeedModule,
 		Dir:   dir,
@@ -351,4 +361,23 @@ func (p *Prog) FuncDecl(pkgPath, name string) (*ast.FuncDecl, *packages.Package)
 		}
 	}
 	return nil, nil
+}
+
+// DynCallees returns the functions a dynamic call (interface method call or
+// call through a function value) may reach according to the VTA call graph
+// (variable type analysis seeded with CHA) of the whole program. Computed on
+// first use; used by the thorough tier to widen reachability scopes.
+func (p *Prog) DynCallees(site ssa.CallInstruction) []*ssa.Function {
+	if p.vtaEdges == nil {
+		p.vtaEdges = map[ssa.CallInstruction][]*ssa.Function{}
+		g := vta.CallGraph(ssautil.AllFunctions(p.SSA), cha.CallGraph(p.SSA))
+		for _, n := range g.Nodes {
+			for _, e := range n.Out {
+				if e.Site != nil && e.Callee != nil && e.Callee.Func != nil {
+					p.vtaEdges[e.Site] = append(p.vtaEdges[e.Site], e.Callee.Func)
+				}
+			}
+		}
+	}
+	return p.vtaEdges[site]
 }
